@@ -1,5 +1,7 @@
 pub mod c01;
 pub mod c02;
+pub mod c05;
+pub mod c07;
 pub mod c08;
 pub mod c09;
 pub mod c10;
@@ -11,6 +13,8 @@ pub fn run(id: &str, ctx: &Ctx) -> i32 {
     match id {
         "C01" => c01::run(ctx),
         "C02" => c02::run(ctx),
+        "C05" => c05::run(ctx),
+        "C07" => c07::run(ctx),
         "C08" => c08::run(ctx),
         "C09" => c09::run(ctx),
         "C10" => c10::run(ctx),
@@ -25,6 +29,8 @@ pub fn replay(id: &str, ctx: &Ctx, v: &Value) -> i32 {
     match id {
         "C01" => c01::replay(ctx, v),
         "C02" => c02::replay(ctx, v),
+        "C05" => c05::replay(ctx, v),
+        "C07" => c07::replay(ctx, v),
         "C08" => c08::replay(ctx, v),
         "C09" => c09::replay(ctx, v),
         "C10" => c10::replay(ctx, v),
